@@ -92,6 +92,9 @@ def run_case(case):
     what = "worker %d dies (%s at %d, status %d), cores=%d batch=%d schedule=%s" % (
         fault[1], fault[0], fault[2], fault[3], case["cores"], case["batch"], case["choices"][:30])
     core.check(res[0] != "hang", "%s: realign hangs (keeps polling after all workers exited)", what)
+    left = plat.hangs_at_exit()
+    core.check(not left, "%s: realign ends (%s) but leaves worker(s) %s blocked for ever and not terminated: the "
+               "interpreter's exit-time join of non-daemonic children never returns", what, res[0], left)
     nout = len(text.split("\n")) - 1 if text else 0
     core.check(res[0] != "ok", "%s: realign returned normally (reported success) with %d of %d records written",
                what, nout, len(case["gaf"]))
